@@ -927,4 +927,144 @@ Proof.
     apply ok_inj in H. subst m. cbn [m_bytes m_sections]. split; [exact Hr|]. split; reflexivity.
 Qed.
 
+
+Lemma decode_sections_cons1 defs info ign i idxs props secs r :
+  decode_sections decode_data defs info ign (i :: idxs) props secs r =
+  let* oc := configure_section defs props i info ign in
+  match oc with
+  | None => decode_sections decode_data defs info ign idxs props secs r
+  | Some c =>
+      let* (sec, props1, r1) := decode_section decode_data c props r in
+      if s_end c then Ok (secs ++ [sec], props1, r1)
+      else decode_sections decode_data defs info ign idxs props1 (secs ++ [sec]) r1
+  end.
+Proof. reflexivity. Qed.
+
+Lemma starts_with_eq_len a : forall b, length a = length b -> starts_with a b = true -> a = b.
+Proof.
+  induction a as [|x a IH]; intros b Hl H; destruct b as [|y b]; try discriminate; [reflexivity|].
+  cbn [starts_with] in H. apply andb_true_iff in H as [H1 H2]. apply N.eqb_eq in H1. subst y.
+  f_equal. apply IH; [cbn in Hl; lia|exact H2].
+Qed.
+
+Lemma starts_with_prefix g x : starts_with g (g ++ x) = true.
+Proof. induction g as [|a g IH]; [reflexivity|]. cbn [app starts_with]. rewrite N.eqb_refl, IH. reflexivity. Qed.
+
+Lemma find_sig_starts g s : starts_with g s = true -> find_sig g s = Some 0%nat.
+Proof. intros H. destruct s; cbn [find_sig]; rewrite H; reflexivity. Qed.
+
+Lemma write_section0 l x ed : (0 <= x < 2 ^ 24)%Z -> (0 <= ed < 2 ^ 8)%Z ->
+  forall o, exists pr,
+    write_params (s_params section0) [PBytes l; PUint x; PUint ed] [] o = Ok (o ++ bits0_of l x ed, pr).
+Proof.
+  intros Hx He o. cbn [section0 s_params write_params]. unfold write_param. cbn [p_type p_nbits].
+  unfold write_bytes. change (32 / 8 <? 0)%Z with false. cbv iota. cbn [bind].
+  unfold write_uint. change (24 <=? 0)%Z with false. change (8 <=? 0)%Z with false. cbv iota.
+  destruct (Z.ltb_spec x 0); [lia|]. destruct (Z.leb_spec (2 ^ 24) x); [lia|]. cbn [bind].
+  destruct (Z.ltb_spec ed 0); [lia|]. destruct (Z.leb_spec (2 ^ 8) ed); [lia|]. cbn [bind].
+  eexists. unfold bits0_of. rewrite <- !app_assoc. reflexivity.
+Qed.
+
+(* C04 frame_roundtrip: decoding an encoded message followed by any trailing
+   bytes succeeds, reports exactly the message's bytes, and returns sections with
+   the same indices, layouts, extents and parameter values — section lengths and
+   the total length included (a to-the-end-of-section bit string comes back with
+   the zero fill of its section appended).
+   Hypotheses: the (final) values fit their fields and the signatures are the
+   expected ones [sec_fits]; a section with descriptors carries fewer than two
+   surplus octets [desc_fill_ok] (two ARE a descriptor by FM-94); the template
+   decoder, given the attributes of sections 0-3, consumes exactly the data bits
+   the encoder was given [data_ok]. *)
+Theorem frame_roundtrip : forall ign json m trailing,
+  encode_message ign json = Ok m ->
+  Forall sec_fits (m_sections m) -> Forall desc_fill_ok (m_sections m) -> data_ok [] (m_sections m) ->
+  exists m',
+    decode_message decode_data (Some sig_BUFR) false false (m_bytes m ++ trailing) = Ok m' /\
+    m_bytes m' = m_bytes m /\
+    Forall2 sec_matches (m_sections m) (m_sections m') /\
+    m_props m' = props_after (m_sections m) [].
+Proof.
+  intros ign json m trailing Henc Hfits Hdfs Hdat.
+  pose proof (starts_BUFR_ends_7777 _ _ _ Henc) as (s0 & mid & s5 & l0 & l5 & Hsecs0 & Hl0 & _ & _ & _ & Hfirst4 & _).
+  destruct (encode_message_inv _ _ _ Henc) as (l & len & ed & json' & e & props & secs_rest & Hinv). cbv zeta in Hinv.
+  destruct Hinv as (Hs & Hm & Hr & Hb & Hsec).
+  set (nbytes := (Z.of_nat (64 + length e) / 8)%Z) in *.
+  rewrite Hsec in Hfits, Hdfs, Hdat, Hsecs0.
+  inversion Hfits as [|? ? Hfit0 Hfits']; subst. inversion Hdfs as [|? ? _ Hdfs']; subst.
+  destruct Hdat as [_ Hdat'].
+  (* what "fits" says of section 0 *)
+  unfold sec_fits in Hfit0. cbn [sec0_of sec_params sec_values map snd section0 s_params fits_layout] in Hfit0.
+  change (fixed_param (mkP Nstart_signature 32 TBytes (Some [66; 85; 70; 82]%N) false)) with true in Hfit0.
+  change (fixed_param (mkP Nlength 24 TUint None true)) with true in Hfit0.
+  change (fixed_param (mkP Nedition 8 TUint None true)) with true in Hfit0. cbv iota in Hfit0.
+  apply andb_true_iff in Hfit0 as [F1 Hfit0]. apply andb_true_iff in Hfit0 as [F2 Hfit0].
+  apply andb_true_iff in Hfit0 as [F3 _].
+  unfold fit_fixed in F1, F3. cbn [p_type p_nbits p_expected] in F1, F3.
+  apply andb_true_iff in F1 as [F1 F1e]. apply andb_true_iff in F1 as [F1b F1l].
+  assert (El : l = sig_BUFR).
+  { unfold bytes_eqb in F1e. apply andb_true_iff in F1e as [A B]. apply Nat.eqb_eq in A.
+    apply starts_with_eq_len; assumption. }
+  assert (Hed : (0 <= ed < 2 ^ 8)%Z) by lia.
+  (* the stream *)
+  assert (Lb0 : length (bits0_of l nbytes ed) = 64%nat).
+  { unfold bits0_of. rewrite !app_length, !length_to_bits, length_bits_of_bytes, length_pad_bytes. reflexivity. }
+  set (B := bits0_of l nbytes ed ++ e) in *.
+  assert (LB : length B = (8 * Z.to_nat nbytes)%nat) by (unfold B; rewrite app_length, Lb0; unfold nbytes; lia).
+  rewrite (to_bytes_whole _ _ LB) in Hb.
+  assert (Hbits : bits_of_bytes (m_bytes m ++ trailing) = B ++ bits_of_bytes trailing).
+  { rewrite bits_of_bytes_app, Hb, (bits_of_bytes_of_bits _ _ LB). reflexivity. }
+  assert (Hlenb : length (m_bytes m) = Z.to_nat nbytes) by (rewrite Hb; apply length_bytes_of_bits).
+  (* the signature is found at position 0 *)
+  assert (Hl0' : l0 = l).
+  { injection Hsecs0 as <- _. cbn in Hl0. injection Hl0 as ->. reflexivity. }
+  assert (Hfind : find_sig sig_BUFR (m_bytes m ++ trailing) = Some 0%nat).
+  { apply find_sig_starts. rewrite <- (firstn_skipn 4 (m_bytes m)), Hfirst4 by congruence.
+    rewrite <- app_assoc. apply starts_with_prefix. }
+  unfold decode_message, decode_message_with. rewrite Hfind. cbn [bind skipn]. rewrite Hbits.
+  (* section 0 *)
+  unfold section_indices. rewrite decode_sections_cons1.
+  change (configure_section definitions [] 0 false false) with (@Ok (option sconfig) (Some section0)). cbn [bind].
+  assert (Hfit0' : fits_layout [] (s_params section0) [PBytes l; PUint nbytes; PUint ed] = true).
+  { cbn [section0 s_params fits_layout].
+    change (fixed_param (mkP Nstart_signature 32 TBytes (Some [66; 85; 70; 82]%N) false)) with true.
+    change (fixed_param (mkP Nlength 24 TUint None true)) with true.
+    change (fixed_param (mkP Nedition 8 TUint None true)) with true. cbv iota.
+    unfold fit_fixed. cbn [p_type p_nbits p_expected]. rewrite F1b, F1l, F1e, F3. cbn [andb].
+    rewrite !andb_true_r. lia. }
+  destruct (make_canon section0 [PBytes l; PUint nbytes; PUint ed] 0 eq_refl Hfit0' (fun _ => eq_refl))
+    as (fx & tail & vfx & K).
+  assert (Htail : tail = None).
+  { destruct tail as [[t tv]|]; [|reflexivity]. destruct (cn_tail_ok _ _ _ _ _ _ K) as (_ & _ & Hh). discriminate Hh. }
+  subst tail.
+  pose proof (decode_canonical section0 _ 0 fx None vfx K (bits0_of l nbytes ed)
+                (write_section0 l nbytes ed Hr Hed) (fun Hh => ltac:(discriminate Hh)) I [] (e ++ bits_of_bytes trailing) I) as Hd0.
+  cbv zeta in Hd0. cbn [zeros repeat app] in Hd0.
+  pose proof (cn_vs _ _ _ _ _ _ K) as Hvs0. rewrite app_nil_r in Hvs0. rewrite app_nil_r in Hd0. subst vfx.
+  unfold B. rewrite <- app_assoc. rewrite Hd0. cbn [bind]. change (s_end section0) with false. cbv iota.
+  (* sections 1.. *)
+  destruct (loop_roundtrip ign _ _ _ _ _ _ _ _ Hs) as (e' & new & Ee & Enew & _ & Hloop).
+  apply app_inv_head in Ee. subst e'. apply app_inv_head in Enew. subst new.
+  assert (Hrel : props_rel [(Nedition, PUint ed); (Nlength, PUint len)]
+                           (add_props (s_params section0) [PBytes l; PUint nbytes; PUint ed] [])).
+  { intros n Hn. cbn [section0 s_params add_props add_prop p_prop p_name prop_get].
+    destruct (pname_beq Nedition n); [reflexivity|].
+    destruct (pname_beq Nlength n) eqn:E; [|reflexivity]. apply internal_pname_dec_bl in E. congruence. }
+  destruct (Hloop Hfits' Hdfs' _ ([] ++ [mkSec (s_index section0) (s_params section0) (length (bits0_of l nbytes ed) + 0)
+               (combine (map p_name (s_params section0)) [PBytes l; PUint nbytes; PUint ed])]) (bits_of_bytes trailing) Hrel Hdat')
+    as (new_d & Hdec & Hms).
+  rewrite Hdec. cbn [bind]. eexists. split; [reflexivity|]. cbn [m_bytes m_sections m_props].
+  split.
+  { rewrite !app_length.
+    replace (length (bits0_of l nbytes ed) + (length e + length (bits_of_bytes trailing)) - length (bits_of_bytes trailing))%nat
+      with (length B) by (unfold B; rewrite app_length; lia).
+    rewrite LB. replace (8 * Z.to_nat nbytes / 8)%nat with (Z.to_nat nbytes) by lia.
+    rewrite <- Hlenb. rewrite firstn_app_exact by reflexivity. reflexivity. }
+  split.
+  { rewrite Hsec. cbn [app]. constructor; [|exact Hms].
+    unfold sec_matches, sec0_of. cbn [sec_index sec_params sec_nbits sec_values]. rewrite Lb0.
+    repeat split. cbn [map combine section0 s_params p_name].
+    repeat constructor. }
+  rewrite Hsec. reflexivity.
+Qed.
+
 End Roundtrip.
